@@ -88,3 +88,33 @@ PROPS['C15'] = dict(
     assumptions=[],
     domain=[],
 )
+
+_F1_ATTRS = """#[cfg_attr(kani, kani::requires(tp < (1 << %(bits)d) && fp < (1 << %(bits)d) && fn_ < (1 << %(bits)d) && (beta == 0.5 || beta == 1.0 || beta == 2.0)))]
+#[cfg_attr(kani, kani::ensures(|r: &F1PrecRec| r.0.is_finite() && r.1.is_finite() && r.2.is_finite()))]
+#[cfg_attr(kani, kani::ensures(|r: &F1PrecRec| 0.0 <= r.0 && r.0 <= 1.0 && 0.0 <= r.1 && r.1 <= 1.0 && 0.0 <= r.2 && r.2 <= 1.0))]
+#[cfg_attr(kani, kani::ensures(|r: &F1PrecRec| !(fp == 0 && fn_ == 0 && tp > 0) || (r.0 == 1.0 && r.1 == 1.0 && r.2 == 1.0)))]
+#[cfg_attr(kani, kani::ensures(|r: &F1PrecRec| tp != 0 || (r.0 == 0.0 && r.1 == 0.0 && r.2 == 0.0)))]
+"""
+
+
+def _f1_kani(tag, bits, harness, tier):
+    return dict(crate='metrics_f1', tag=tag, harnesses=[harness], extra_args=['-Z', 'function-contracts'], tier=tier,
+                timeout=2400, arg_names=['tp', 'fp', 'fn_'], fixed_args={'beta': {'f1_contract_beta1': 1.0, 'f1_contract_beta_half': 0.5, 'f1_contract_beta2': 2.0}[harness]},
+                domain='tp, fp, fn < 2^%d, beta as fixed by the harness (complete over this domain: _f1 is loop-free)' % bits,
+                extract=[dict(unit='src/metrics.rs type F1PrecRec'),
+                         dict(unit='src/metrics.rs fn _f1', attrs=_F1_ATTRS % dict(bits=bits))])
+
+
+PROPS['C13'] = dict(
+    title='Correction metrics are total, bounded, calibrated and aggregate correctly',
+    groups=[dict(template='c13_metrics.rs')],
+    input_search=True,
+    kani=[_f1_kani('q', 10, 'f1_contract_beta1', 'quick-only'),
+          _f1_kani('t1', 20, 'f1_contract_beta1', 'thorough'),
+          _f1_kani('t05', 20, 'f1_contract_beta_half', 'thorough'),
+          _f1_kani('t2', 20, 'f1_contract_beta2', 'thorough')],
+    claim='',
+    not_covered=[],
+    assumptions=[],
+    domain=[],
+)
